@@ -418,6 +418,18 @@ def rule_sealed_intro(ctx):
                             env.names[exp] = "$EXPECTED"
                             env.absorb(pa["body"])
                             tys_ = [A.sexpr(H.call_args(c)[1], env) for c in outs if len(H.call_args(c)) == 2]
+                            # the node itself records the representation (a product of the component types): the back ends lay a
+                            # tuple out by the annotation of its node (Lowerer::product_arity accepts Unit / Prod only) (F60)
+                            allocs = [c for c in H.walk(pa["body"]) if H.kind(c) in ("Call", "MethodCall") and (H.callee(c) or "").endswith("::alloc")
+                                      and len(H.call_args(c)) >= 3 and "ConsN" in A.sexpr(H.call_args(c)[1], env)]
+                            anns = [A.sexpr(H.call_args(c)[2], env) for c in allocs]
+                            ctx.check(bool(anns) and all(t != "$EXPECTED" and "syntax::Prod" in t for t in anns), rule,
+                                      "term:%s:node-representation" % A.pat_shape(a["pat"]),
+                                      "the %s judgment allocates the tuple node with the annotation %s: the lowering reads the layout of a "
+                                      "tuple from its node's annotation and panics (`VCons must have Unit or product type`) when that is a "
+                                      "sealed type such as `def Wrap = Int64 * Int64`; the node must record the product of the component "
+                                      "types" % (A.pat_shape(a["pat"]), [t[:80] for t in anns]), [loc[0], pa["ln"]],
+                                      detail={"former": A.pat_shape(a["pat"]), "node annotation": "rebuilt Prod spine"})
                             ctx.check(bool(tys_) and all(t == "$EXPECTED" for t in tys_), rule, "term:%s:returns-expected" % A.pat_shape(a["pat"]),
                                       "the %s judgment, checked against a (possibly sealed) product type, returns %s instead of the type it "
                                       "was checked against: a sealed product is given away as its representation"
